@@ -20,6 +20,10 @@ CLAIMED = {
             "exhaustive crash-point enumeration: every program-order prefix (byte-granular) of the save's real system-call effect log, each reopened with the real code",
             "For each history scenario the real Project.close()/sync() runs once under strace; the ordered effects on the rope folder (open/truncate, write, rename, unlink, tracked per inode) are the ground truth. Every prefix of that list, with every byte prefix of every write, is materialised and the project is reopened: opening, project.history, the object db and module analysis must not raise and history/objectdb must each equal the complete old or the complete new version (or be empty).",
             "process-death crash model (program-order prefixes of what reached the OS); strace log is trusted and the harness exits 2 if replaying all effects does not reproduce the real final rope folder", "3/C18"),
+    "C12": ("model_checking",
+            "differential explicit-state exploration: every history to depth 3 (4 thorough) replayed on the real code with and without close/reopen at every position; exhaustive serializer round trip over all values up to a node bound",
+            "Every feasible sequence of 17 operations is executed on the real implementation straight through and again with close()+reopen inserted at each position (thorough: each pair), then driven through undo-all/redo-all and selective undo/redo probes; the two runs must agree observation by observation (history lists with contents, tree after every probe step, stored object info across the reopen). All nested values with <=4 (6) nodes over a collision-prone atom alphabet are round-tripped through JSON text for both serializer versions with type-exact comparison.",
+            "differential oracle: the run without reopen is the reference; bounded depth and value size; time stamps not compared", "3/C12"),
 }
 
 PENDING_REASON = "check not built yet in this session (see DESIGN.md section 8 build order); nothing is claimed for it"
